@@ -79,7 +79,12 @@ class CompactDiskAudioImage(Image):
 
     @property
     def children(self):
-        return self.tracks
+        if getattr(self, "_children", None) is None:
+            children = self.tracks
+            for routine in getattr(self, "_routines", {}).values():
+                children = routine(children)
+            self._children = children
+        return self._children
 
     def combine_stereo_routine(self, samples: List[Sample]) -> List[Sample]:
         result = samples
